@@ -718,7 +718,7 @@ func (e *c15Env) scenario(b *c15Built, store metadata.Store) (map[string]any, er
 	}
 	return map[string]any{"id": e.sc.ID + "/" + e.store, "nf": len(e.files), "names": names, "off": off, "span": span, "pre": pre, "prf": prf, "prio": prio,
 		"lm": e.lm, "loff": e.loff, "size": len(b.blob), "cs": e.sc.CS, "cfg": e.sc.Cfg, "thr": e.sc.Thr, "f0": e.f0,
-		"np": e.sc.NP, "nw": e.sc.NW, "nb": e.sc.NB, "tmo": tmo, "rd": rd, "haslst": e.fsdir != ""}, nil
+		"np": e.sc.NP, "nw": e.sc.NW, "nb": e.sc.NB, "tmo": tmo, "rd": rd, "ro": 2, "haslst": e.fsdir != ""}, nil
 }
 
 // ---------------------------------------------------------------------------------------------- replay of walks
